@@ -22,7 +22,9 @@ RULE = ('exhaustive box: line width w in 1..5 x sequence length n in 0..11 x {LF
         '(id, i, j) triples through get/iter, get_fasta/iter_fasta, get_fastaheader/iter_fastaheader, the same call repeated, reversed '
         'and through another api, the same id with different ranges in both orders, a second object on the same index, a freshly '
         'opened object, files added again, calls right after a failed lookup; every answer is compared with the pure model of that '
-        'query alone); a malformed '
+        'query alone); header cases (file names with blanks and '
+        'dots registered one by one in shuffled order: stored header and reopened path/files against the header model); every file is '
+        'also read with sugar.read and compared with the whole-file reader model; a malformed '
         'stream of raw files (compared for drift only); corpus = witnesses of F11-F13, F15, F16. '
         'non-trivial = distinct case whose queries cross a line break, are clipped, start beyond the end, hit an empty record, '
         'use CRLF or a file without final newline')
@@ -161,7 +163,12 @@ def run_index(case, d):
         with open(p, 'wb') as fh:
             fh.write(render_file(f))
         b = open(p, 'rb').read()
-        sums.append([len(b), zlib.adler32(b)])
+        try:      # "reading the file": sugar.read of the whole file, compared with the model's whole-file reader
+            import sugar
+            rd = [[x.id, x.meta._fasta.header, str(x)] for x in sugar.read(p, fmt='fasta')]
+        except Exception as e:
+            rd = canon_exc(e)
+        sums.append([len(b), zlib.adler32(b), rd])
         paths.append(p)
     dbname = os.path.join(d, 'test.sugarindex')
     mode = mode_of(case)
@@ -300,10 +307,46 @@ def run_history(case, idx, dbname, mode, paths):
     return objs[cur], res
 
 
+def is_header_case(case):
+    return isinstance(case.get('names'), list)
+
+
+def run_header(case, d):
+    """header persistence: files with the given NAMES are registered by one add call each in the given order; returns the
+    header as the store keeps it and (path, files) of the index opened again"""
+    from sugar import FastaIndex
+    os.environ['XDG_CACHE_HOME'] = os.path.join(d, 'cache')
+    mode = mode_of(case)
+    dbname = os.path.join(d, 'test.sugarindex')
+    idx = FastaIndex(dbname, create=True, mode=mode)
+    for k, name in enumerate(case['names']):
+        p = os.path.join(d, name)
+        with open(p, 'wb') as fh:
+            fh.write(b'>h%d\nACGT\n' % k)
+        idx.add(p, silent=True, force=(k > 0 and mode == 'binary'))
+    if not case['names']:
+        idx.add([], silent=True)
+    if mode == 'db':
+        idx.db.close()
+    idx2 = FastaIndex(dbname)
+    try:
+        stored = idx2.db['header'] if mode == 'db' else idx2.db.read_header()
+        ans = []
+        for k in range(len(case['names'])):
+            ans.append(str(idx2.get('h%d' % k)[0]))
+        assert ans == ['ACGT'] * len(case['names']), 'every registered file is found again'
+        return [stored.decode('latin-1'), [idx2.path, list(idx2.files)]]
+    finally:
+        if mode == 'db':
+            idx2.db.close()
+
+
 def impl(case):
     d = tempfile.mkdtemp(prefix='C09-', dir='/tmp')
     old = os.environ.get('XDG_CACHE_HOME')
     try:
+        if is_header_case(case):
+            return run_header(case, d)
         return run_index(case, d)
     finally:
         shutil.rmtree(d, ignore_errors=True)
@@ -341,6 +384,10 @@ def coq_query(q):
 
 
 def model_term(case):
+    if is_header_case(case):
+        from sugar.index.fastaindex import FastaBinarySearchFile
+        return 'out (run_C09_header %s %s %s %s)' % (coq_N(MODES[mode_of(case)]), coq_bs(FastaBinarySearchFile.headerstart),
+                                                    coq_bs('{dbpath}/'), coq_list([coq_bs(n) for n in case['names']]))
     nbox = 0
     if case.get('box'):
         m = case['box']['m']
@@ -360,7 +407,7 @@ def model_term(case):
 
 
 def split_model(case, m):
-    return bool(m[0]), [m[1], m[2]]
+    return bool(m[0]), [m[1], m[2]]          # header cases have the same shape: [stored header, [path, files]]
 
 
 def _canon(case, v):
@@ -410,6 +457,11 @@ def spec(case, got):
     """The property, from first principles: answers equal the residues s[i:j] (Python slice semantics = clipping)."""
     if isinstance(got, dict):
         return 'raised %s' % got['e']
+    if is_header_case(case):
+        stored, pf = got
+        if pf != ['{dbpath}/', case['names']]:
+            return 'reopened index has path/files %r, registered were %r' % (pf, case['names'])
+        return None
     sums, body = got
     if isinstance(body, dict):
         return 'FastaIndex.add raised %s' % body['e']
@@ -493,6 +545,8 @@ def _flags(case):
 
 
 def nontrivial(case, got):
+    if is_header_case(case):
+        return ['header', len(case['names']), case['names'] != sorted(case['names'])]
     fl = _flags(case)
     if fl and set(fl) & {'crosses-break', 'clipped', 'start-beyond-end', 'empty-record', 'crlf', 'nofinal', 'registered-against-name-order'}:
         return fl
@@ -646,6 +700,18 @@ def regorder_case(rng, nfiles, order, db, reopen):
     return {'_kind': 'regorder', 'db': db, 'reopen': reopen, 'addmode': 2, 'order': list(order), 'files': files, 'queries': qs}
 
 
+def header_case(rng):
+    """file names (with blanks, dots, digits; not sorted) registered one by one; the header must give them back in that order"""
+    names = set()
+    while len(names) < rng.choice([0, 1, 2, 3, 5]):
+        n = ''.join(rng.choice('abzAZ09_-. ') for _ in range(rng.choice([1, 3, 8]))).strip()
+        if n and n not in ('.', '..') and not n.startswith('test.sugarindex'):
+            names.add(n + rng.choice(['.fasta', '.fa', '']))
+    names = [n for n in names if n not in ('.', '..')]
+    rng.shuffle(names)
+    return {'_kind': 'header', 'db': rng.random() < 0.5, 'reopen': True, 'addmode': 2, 'files': [], 'queries': [], 'names': names}
+
+
 def hist_case(rng):
     """history / state-independence stream: several calls on the same index object(s)"""
     mode = rng.choice(['binary', 'db'])
@@ -780,6 +846,8 @@ def gen_cases(rng, tier):
                 cases.append(regorder_case(rng, len(o), o, db, reopen))
     for _ in range(2000 if tier == 'thorough' else 150):
         cases.append(hist_case(rng))
+    for _ in range(300 if tier == 'thorough' else 40):
+        cases.append(header_case(rng))
     nrand, nmal = (6000, 600) if tier == 'thorough' else (260, 40)
     for k in range(nrand):
         cases.append(rand_case(rng, big=(k % 10 == 0)))
@@ -945,27 +1013,26 @@ def extra_checks(rng, tier, cov):
 
 
 LEVEL_TEXT = ('Machine-checked Coq theorems (all unbounded unless said otherwise) about a line-by-line Gallina model of '
-              'sugar/index/fastaindex.py and of the FASTA reader as FastaIndex.get uses it: slice_through_wrap (bytes [off i, off j) of '
-              'the wrapped text contain exactly s[i:j]); pack/unpack round trip of dbm values; scan_index: for every non-empty list of '
-              'well-formed records, with or without final newline (also a last record that is a bare header), the scanner yields '
-              'exactly one entry per record with its offset and line length; extract_record: header / whole-record / range queries '
-              '(open ends, end clipped, start beyond the end) return the header line, the record text, and bytes whose newline-free '
-              'content is s[i:j]; parse_extracted: the reader turns that text into (id, header, upper residues); get_record and '
-              'index_get_spec: end to end on the model, for any set of well-formed files (final newline), any number of records, '
-              'widths, LF/CRLF, distinct ids, both back ends, len(index) = number of records and every record of every file answers '
-              'get_fastaheader / get_fasta / get / get(id,i,j) with upper(s[i:j]); modes_agree: binary and dbm answers are equal for '
-              'every query; file numbers index the registration list. The model is tied to the real FastaIndex (both back ends, '
-              'same object and reopened, registration against name order, temp directories) by differential testing on every run; '
-              'binary = dbm = reopened = sugar.read(file)[id][i:j] is checked relationally.')
-LEVEL_NOTE = ('Proved per component but not composed into the index-level theorem: files without final newline (scanner, and '
-              'header/whole/range get on the last record are proved; the composition is proved only on the enumerated 960-file box). '
-              'Tested only: that sugar.read of the whole file gives the residues s the theorems speak about (extra_checks against '
-              'sugar.read), the storage back ends mmap/dbm/binarysearchfile, header persistence and reopening (relational checks), '
-              'add(seek=N) (exercised relationally, not modelled). Open findings excluded from wf_C09: F15 (dbm line length >= 65536), '
-              'F16 (dbm id "header"). All histories (one add call, one add call per file with force=True in any registration order, '
-              'reopened index) are inside the domain. Domain: printable ASCII, ids without , | ; : >, residues without > and ;, at '
-              'least one record per file, distinct ids. Statement coverage of the modelled functions in the quick tier: all '
-              'statements of all modelled functions are executed (the tqdm progress-bar branch of the scanner through a stand-in put '
-              'into the module attribute, since tqdm is not installed here). '
+              'sugar/index/fastaindex.py and of the FASTA reader: slice_through_wrap; pack/unpack round trip; scan_index (with and '
+              'without final newline, also a last record that is a bare header); extract_record (header / whole-record / range '
+              'queries incl. clipping); parse_extracted (reader on the extracted text); index_get_spec_all: end to end on the model for '
+              'ANY set of well-formed files with either value of the trailing-newline flag, any number of records, widths, LF/CRLF, '
+              'distinct ids, both back ends: len(index) = number of records and every record of every file answers get_fastaheader / '
+              'get_fasta / get / get(id,i,j) with upper(s[i:j]); read_file + index_equals_read: the whole-file reader yields the '
+              'records in order and the index answers are slices of what it yields ("same as reading the file and slicing"); '
+              'modes_agree: binary and dbm answers are equal for every query; header_roundtrip: the header written by add() (file '
+              'list in registration order) parsed by _read_header gives back path and file list in both modes ("also after the '
+              'index is reopened"); file numbers index the registration list. The model (incl. the whole-file reader and the '
+              'header functions) is tied to the real code by differential testing on every run (both back ends, same object and '
+              'reopened, registration against name order, call histories on the same objects, temp directories).')
+LEVEL_NOTE = ('Trusted / tested only: the storage back ends mmap, dbm (dbm.dumb here) and binarysearchfile keeping the records and the '
+              'header bytes they were given; CPython text layer (universal newlines are not modelled: the reader model splits at LF, '
+              'which gives the same stripped lines on files without a lone CR); add(seek=N) (exercised relationally, not modelled). '
+              'Open findings excluded from wf_C09: F15 (dbm line length >= 65536), F16 (dbm id "header"). All histories (one add call, '
+              'one add call per file with force=True in any registration order, reopened index, several objects, repeated calls) are '
+              'inside the tested domain. Domain: printable ASCII, ids without , | ; : >, residues without > and ;, at least one record '
+              'per file, distinct ids; header theorem: path and file names without "," and line feed and without leading/trailing white '
+              'space (binary mode strips them). Statement coverage of the modelled functions in the quick tier: all statements executed '
+              '(the tqdm progress-bar branch through a stand-in put into the module attribute, since tqdm is not installed here). '
               'All theorems closed under the global context (no axioms).')
 TECHNIQUE = 'Coq 8.16 proof (structural induction + lia/nia, finite box by vm_compute) + model/code differential correspondence'
